@@ -75,7 +75,13 @@ WalkOK(f, nf, ns) == ~(f = nf /\ ns # <<>> /\ fid[f].open)
 Create(f, nm, isdir, perm) == LET r == [R0 EXCEPT !.op = "create", !.f = f, !.name = nm, !.a = IF isdir THEN 1 ELSE 0, !.b = perm] IN
   IF ~fid[f].bound \/ KindAt(fid[f].path) # "dir" \/ ~Ordinary(nm) THEN Err(r)
   ELSE LET t == Append(fid[f].path, nm) IN
-       IF Len(t) > MaxDepth \/ Exists(t) \/ ~HaveFree THEN Len(t) <= MaxDepth /\ Exists(t) /\ isdir /\ Err(r)   \* only mkdir of an existing name is generated
+       IF Len(t) <= MaxDepth /\ Exists(t) /\ ~isdir /\ KindAt(t) = "file" THEN
+            \* a plain-file create of a name that already denotes a file: the host's open(O_CREAT) without O_EXCL
+            \* opens the existing file and - the mode carries no truncation - leaves its content alone.
+            \* (A server that refuses instead is also faithful to 9P; the harness accepts both and compares the trees.)
+            /\ fid' = [fid EXCEPT ![f] = [path |-> t, bound |-> TRUE, open |-> TRUE, ino |-> tree[t], mode |-> 2, at |-> tree[t]]]
+            /\ UNCHANGED <<tree, ino>> /\ last' = [r EXCEPT !.res = "ok-existing"]
+       ELSE IF Len(t) > MaxDepth \/ Exists(t) \/ ~HaveFree THEN Len(t) <= MaxDepth /\ Exists(t) /\ isdir /\ Err(r)   \* mkdir of an existing name
        ELSE LET i == FreeIno IN
             /\ ino' = [ino EXCEPT ![i] = [kind |-> IF isdir THEN "dir" ELSE "file", data |-> <<>>, perm |-> perm]]
             /\ tree' = [tree EXCEPT ![t] = i]
@@ -178,4 +184,5 @@ OneLink == \A p, q \in Paths : (tree[p] # 0 /\ tree[p] = tree[q]) => p = q
 NoLeak == \A i \in Inos : ino[i].kind # "free" => Referenced(i, tree, fid)
 HostileFull == {"", ".", "..", "a/b", "/", "/etc", "a\\b", "../x"}
 HostileSmall == {".."}
+HostileNone == {}
 =============================================================================
